@@ -384,14 +384,18 @@ def check_reset(ctx, F):
                             seq.append(n)
                     elif n == "clear" and obj.endswith("._core.registry"):
                         seq.append("registry.clear")
+                    elif n == "clearRequests" and obj.endswith("._core.registry"):
+                        seq.append("clearRequests")
                     elif "Guard" in n:
                         seq.append("guard!")
-            if seq != ["deepExit", "registry.clear", "deepRequestChange", "deepEnter"]:
+            # (the marks the resolution left in the candidates that lost - utilitarian / random / selectable regions poll every sub-state - are
+            # cleared afterwards, as after every other commit: a later request into such a region would otherwise be taken for already resolved)
+            if seq != ["deepExit", "registry.clear", "deepRequestChange", "deepEnter", "clearRequests"]:
                 bad = seq
         ctx.instance("C02.reset", site, {"function": site, "loc": F.floc(fid)})
         if bad is not None:
             ctx.violation("C02.reset", site, "%s (%s)" % (site, F.floc(fid)),
-                          "reset sequence %s, expected [deepExit, registry.clear, deepRequestChange, deepEnter] (re-activation as the first activation)" % bad, {})
+                          "reset sequence %s, expected [deepExit, registry.clear, deepRequestChange, deepEnter, clearRequests] (re-activation as the first activation)" % bad, {})
 
 
 def check_idle(ctx, F):
